@@ -400,7 +400,8 @@ def family(tier):
                 opts(LittleEndian=le, StringPrefixLenType=sp))
     for le in ORDERS:
         for sp, lp in ([(a, b) for a in PFX for b in PFX] if thorough else
-                       [(None, None), ('u8', 'u32'), ('u32', 'u8'), ('u64', 'u16'), ('u16', 'u64'), ('u8', 'u8')]):
+                       [(None, None), ('u8', 'u32'), ('u32', 'u8'), ('u64', 'u16'), ('u16', 'u64'), ('u8', 'u8'), (None, 'u32'), ('u8', None),
+                        (None, 'u8'), ('u32', None)]):
             add('strlist_%s_%s_%s' % (le, sp, lp), [Packet('Root', [F('dyn', 'Names', repeat=True, spelling='string'),
                                                                   F('basic', 'X', typ='u16')], root=True)],
                 opts(LittleEndian=le, StringPrefixLenType=sp, ArrayPrefixLenType=lp))
@@ -417,7 +418,8 @@ def family(tier):
                 continue
             add('fixed_opt_%s_%s' % (fl, {None: 'n', "'0'": 'zero', "' '": 'sp', "'\\x00'": 'nul'}[pc]),
                 [Packet('Root', [F('fixed', 'Code', n=4), F('fixed', 'Z', n=3, z=True),
-                                 F('fixed', 'P', n=4, pad=('left', "'0'"))], root=True)],
+                                 F('fixed', 'P', n=4, pad=('left', "'0'")), F('fixed', 'Q', n=4, pad=('right', "' '")),
+                                 F('fixed', 'R', n=3, pad=('right', None)), F('fixed', 'Qs', n=2, pad=('right', "' '"), repeat=True)], root=True)],
                 opts(FixedStringPadFromLeft=fl, FixedStringPadChar=pc))
     for le in ORDERS[:2]:
         for lp in [None, 'u8', 'u32']:
@@ -468,7 +470,7 @@ def family(tier):
                         body = F('obj', 'Body', typ='Logon')
                         pk = [logon]
                     add('len_%s_%s_%s_%s' % (w, sp, le, tgt),
-                        [Packet('Root', [F('basic', 'MsgType', typ='u16'), F('lengthof', 'BodyLength', typ=w, target='Body', spelling=sp),
+                        [Packet('Root', [F('basic', 'MsgType', typ='u16'), F('lengthof', 'BodyLength', typ=w, target='Body', spelling=sp, alias=(le == 'true')),
                                          body, F('basic', 'Tail', typ='u8')], root=True)] + pk,
                         opts(LittleEndian=le), fam='lengthof')
     add('len_meta', [Packet('Root', [F('basic', 'MsgType', typ='u16'), F('lengthof', 'BodyLength', typ='u32', target='Body', spelling='meta'),
@@ -477,7 +479,33 @@ def family(tier):
     add('len_inlineobj', [Packet('Root', [F('lengthof', 'BodyLength', typ='u16', target='Body', spelling='inline'),
                                            F('inline', 'Body', fields=[F('dyn', 'S', spelling='string'), F('basic', 'V', typ='u32', repeat=True)])], root=True)],
         opts(LittleEndian='true'), fam='lengthof')
+    for le in ORDERS[:2]:
+        for w in ['u16', 'u32']:
+            add('len_gap_%s_%s' % (w, le),
+                [Packet('Root', [F('lengthof', 'BodyLength', typ=w, target='Body', spelling='inline'), F('basic', 'MsgType', typ='u16'),
+                                 F('basic', 'SeqNo', typ='u32'),
+                                 F('match', 'Body', key='MsgType', pairs=[([1], 'Logon'), ([2], 'Logout'), ([3], 'Heartbeat')]),
+                                 F('basic', 'Tail', typ='u8')], root=True), logon, logout, hb],
+                opts(LittleEndian=le), fam='lengthof', note='ordinary fields between the length field and its target')
     # match family
+    pa = Packet('Alpha', [F('basic', 'A', typ='u8')])
+    pb = Packet('Beta', [F('basic', 'B', typ='u16')])
+    pc = Packet('Gamma', [])
+    for kt in INTS:
+        for le in ORDERS[:2]:
+            add('disp_%s_%s' % (kt, le),
+                [Packet('Root', [F('basic', 'Kind', typ=kt), F('match', 'Payload', key='Kind', pairs=[([1], 'Alpha'), ([2, 200 if kt != 'i8' else 120, 7], 'Beta'), ([3], 'Alpha'), ([100], 'Gamma')])],
+                        root=True), pa, pb, pc], opts(LittleEndian=le), fam='dispatch')
+    add('disp_str', [Packet('Root', [F('dyn', 'Kind', spelling='string'),
+                                     F('match', 'Payload', key='Kind', pairs=[(['AA'], 'Alpha'), (['BB', 'CC', 'D'], 'Beta')])], root=True), pa, pb],
+        opts(), fam='dispatch')
+    add('disp_strlist', [Packet('Root', [F('dyn', 'Kind', spelling='string'),
+                                         F('match', 'Payload', key='Kind', pairs=[(['X', 'YZ'], 'Alpha')])], root=True), pa],
+        opts(LittleEndian='true'), fam='dispatch')
+    add('disp_nonroot', [Packet('Root', [F('obj', 'Env', typ='Envelope')], root=True),
+                         Packet('Envelope', [F('basic', 'T', typ='u32'), F('match', 'Inner', key='T', pairs=[([5], 'Alpha'), ([6, 70000], 'Beta')]),
+                                             F('basic', 'After', typ='u8')]), pa, pb],
+        opts(), fam='dispatch')
     for kt in INTS:
         for le in ORDERS[:2]:
             pairs = [([1], 'Logon'), ([2, 7], 'Logout'), ([100], 'Heartbeat')]
@@ -505,7 +533,7 @@ def family(tier):
             for le in ORDERS[:2]:
                 add('cks_%s_%s_%s' % (w, sp, le),
                     [Packet('Root', [F('basic', 'A', typ='u16'), F('dyn', 'S', spelling='string'),
-                                     F('checksum', 'Check', typ=w, alg='CRC32', spelling=sp)], root=True)],
+                                     F('checksum', 'Check', typ=w, alg='CRC32', spelling=sp, alias=(le is None))], root=True)],
                     opts(LittleEndian=le), fam='checksum')
     add('cks_mid', [Packet('Root', [F('basic', 'A', typ='u32'), F('checksum', 'Check', typ='u32', alg='SUM8', spelling='inline'),
                                      F('basic', 'After', typ='u16')], root=True)], opts(LittleEndian='true'), fam='checksum',
@@ -514,6 +542,9 @@ def family(tier):
     add('idents', [Packet('Root', [F('basic', 'MsgType2', typ='u8'), F('dyn', 'clOrdID', spelling='string'), F('basic', 'user_name', typ='u16'),
                                    F('basic', 'ID', typ='u32'), F('obj', 'leg', typ='OrderLeg')], root=True),
                    Packet('OrderLeg', [F('basic', 'legQty', typ='i64')])], opts(LittleEndian='true'), note='identifier shapes')
+    add('idents_caps', [Packet('Root', [F('basic', 'K', typ='u8'), F('match', 'P', key='K', pairs=[([1], 'PA'), ([2], 'NewOrderV2')])], root=True),
+                        Packet('PA', [F('basic', 'A', typ='u8')]), Packet('NewOrderV2', [F('basic', 'B', typ='u8')])], opts(),
+        note='all-caps and digit-suffixed packet names')
     # ---- combined programs ----
     for i, (le, sp, lp) in enumerate([(None, None, None), ('true', 'u8', 'u32'), ('true', 'u32', 'u8'), ('false', 'u64', 'u64')]):
         sub = F('inline', 'Sub', repeat=True, fields=[F('fixed', 'Id', n=4), F('fixed', 'Z', n=5, z=True), F('basic', 'Px', typ='f64')])
